@@ -137,7 +137,7 @@ def generate(ck):
                 "pressures": [wl.f(v) for v in p],
                 "contains_pb": with_pb,
                 "kw": bool(rng.random() < 0.3),
-                "long": (int(rng.choice([12001, 20000, 50001])) if (i % 29 == 13 and (fn.startswith("Fluid.gas") or fn in ("b_o_Standing", "Fluid.oil_FVF", "viscosity_water_McCain"))) else None),
+                "long": (int(rng.choice([12001, 20000, 50001] if fn.startswith("Fluid.gas") else [50001, 70001, 140001, 262145])) if (i % 29 == 13 and (fn.startswith("Fluid.gas") or fn in ("b_o_Standing", "Fluid.oil_FVF", "viscosity_water_McCain", "oil_compressibility_undersat_Spivey", "solution_gor_Standing"))) else None),
                 "threads": [wl.oil_params(rng) for _ in range(3)] if i % 90 == 17 else None,
             }
         )
